@@ -2,11 +2,11 @@ SPECIFICATION SpecP
 VIEW view
 CONSTANTS
   OffsMod = 65536
-  Kind = "pais"
-  Atoms <- AtomsListS
-  Prefix <- PfxNone
-  MaxLen = 7
-  Cfgs <- CfgsPAIs
+  Kind = "nameaddr"
+  Atoms <- AtomsQLong
+  Prefix <- PfxQLong
+  MaxLen = 14
+  Cfgs <- CfgsNA8
   Junk = 34
   EmitOn = TRUE
 INVARIANTS ResumeEqFresh Stable OffsSane Emit
